@@ -15,13 +15,15 @@ class Check(SiteCheck):
                  'instantiated by listings_checked = vm_compute on the regenerated table; C12_hidden_root_row_old_refuted for the '
                  'root listings before 989b1ee); no href targets an object that '
                  'is not visible now that taglink drops it (C12_no_link_targets_hidden; C12_taglink_old_refuted for the code before '
-                 'fd84d91); every member-table row, member detail block, sidebar item, module-index item and search document of a '
+                 'fd84d91; covers docstring cross references, whose resolver is an oracle that may return hidden objects); a `__main__` module '
+                 'is PRIVATE whatever the rules say and carries the marker everywhere (C12_main_module_private, '
+                 'C12_main_module_rule_ignored); every member-table row, member detail block, sidebar item, module-index item and search document of a '
                  'PRIVATE object carries the private marker (C12_private_marked, from markers_checked). Tie: set-for-set '
                  'correspondence with a crawl of the real output + an oracle that greps the whole output (files, ids, hrefs, rows '
                  'without link, all-documents, searchindex.json, objects.inv) for every hidden object and checks the marker of every '
                  'entry of every PRIVATE object.'),
-        'note': ('The privacy class of each object (incl. the __main__ => PRIVATE rule of Module.privacyClass) is an input of the model: '
-                 'C12_main_module_private of DESIGN.md is not stated here (C13\'s subject). A hidden base named as plain text in a class '
+        'note': ('System.privacyClass(obj) (what the --privacy rules mean: C13) is an input; Module.privacyClass (the __main__ rule) is '
+                 'modelled and pinned by the translator. A hidden base named as plain text in a class '
                  'signature / classIndex external-base node / "overrides" note is not counted as an entry. Trusted: Coq kernel, '
                  'gen_listings.py, extraction, harness + crawler.'),
         'technique': 'Coq proof (per-producer invariant over a regenerated listing skeleton) + crawl correspondence',
